@@ -16,7 +16,10 @@ RULE = ('dynreg: a generated universe of packages / modules / classes (with meth
         'attribute chain denotes, different spellings reach one configurable, names not provided by the file itself are '
         'NameErrors, and config_str() re-parsed in a fresh gin configures the same objects with the same values. '
         'non-trivial = two texts binding one object through different import spellings, or a method configured after its '
-        'class was referenced.')
+        'class was referenced. Second engine scoped-refs (implementation only): references - scoped or not, evaluated or not, '
+        'bare or in containers - written before / after the statements that configure methods of their target class (each '
+        're-registers it) are CALLED under every scope of the file; what the constructor, the function and the methods of the '
+        'delivered object receive must be the longest-prefix bindings of the file, also after config_str() is re-parsed.')
 TRUSTED_BASE = [
     'Coq 8.16.1 kernel; vm_compute in the correspondence run',
     'hand-written model coq/Model/DynReg.v of gin/config.py:152-334, 2024-2099 and config_parser.py:86-117; tied to /repo by harness/props/c19.py',
@@ -584,4 +587,386 @@ class DynEngine(Engine):
             'tags': ['calls%d' % len(case)] + ['err' if isinstance(o, T) else 'ok' for o in obs[:len(case)]]}
 
 
-ENGINES = [DynEngine()]
+# ----------------------------------------------------------------------------------------------------------------------
+# references (scoped and not, evaluated and not) made BEFORE a later statement re-registers their target, then CALLED
+SR_LEVEL = {'top.g': 0, 'top.h': 0, 'pkga.util.g': 1, 'pkga.util.f': 1, 'pkga.util.C': 2, 'pkgb.util.C': 2,
+            'pkga.util.C.Inner': 3, 'pkgb.util.f': 3}       # a reference goes from a lower to a strictly higher level: no cycles
+SR_METHODS = {'pkga.util.C': ['meth'], 'pkgb.util.C': ['meth', 'meth2']}
+SR_SPELL = {'pkga.util': [['import', 'pkga.util', False, None], ['import', 'pkga.util', False, 'ua'], ['import', 'pkga.util', True, None],
+                          ['import', 'pkga.util', True, 'ua']],
+            'pkgb.util': [['import', 'pkgb.util', False, None], ['import', 'pkgb.util', False, 'ub'], ['import', 'pkgb.util', True, None],
+                          ['import', 'pkgb.util', True, 'ub']],
+            'top': [['import', 'top', False, None], ['import', 'top', False, 't']]}
+SR_BIND_SCOPES = ['', '', 'ev', 'tr', 'ev/inner', 'tr/ev']
+SR_REF_SCOPES = [[], ['ev'], ['ev'], ['tr'], ['ev', 'inner'], ['tr', 'ev'], ['zz', 'ev']]
+
+
+def sr_module(path):
+  return max((m for m in SR_SPELL if path.startswith(m + '.')), key=len)
+
+
+def sr_val(v):
+  if isinstance(v, int):
+    return str(v)
+  if v[0] == 'ref':
+    return '@' + '/'.join(list(v[1]) + [v[2]]) + ('()' if v[3] else '')
+  if v[0] == 'list':
+    return '[' + ', '.join(sr_val(x) for x in v[1]) + ']'
+  return '{' + ', '.join('%r: %s' % (k, sr_val(x)) for k, x in v[1]) + '}'
+
+
+def sr_render(stmts):
+  out = []
+  for st in stmts:
+    if st[0] == 'import':
+      out.append(render([st]).rstrip('\n'))
+    else:
+      out.append('%s%s.%s = %s' % (st[1] + '/' if st[1] else '', st[2], st[3], sr_val(st[4])))
+  return '\n'.join(out) + '\n'
+
+
+def sr_refs(v):
+  if isinstance(v, int):
+    return
+  if v[0] == 'ref':
+    yield v
+  else:
+    for x in v[1]:
+      for r in sr_refs(x[1] if v[0] == 'dict' else x):
+        yield r
+
+
+class ScopedRefEngine(Engine):
+  """Implementation only (the model records references but has no calls).  A file's statements alone determine what a call
+  THROUGH a reference receives: the target runs under the reference's own scope when it has one (else under the scope
+  active at the call), and every parameter takes the binding whose scope is the longest prefix of that scope - whatever
+  was written first, the reference or the bindings, and however often the target class was re-registered in between
+  because a method of it got configured."""
+  name = 'scoped-refs'
+  model = False
+  rule = ('scoped-refs: 1-2 config texts with dynamic registration (one import spelling per module, random among plain / as / '
+          'from / from-as) whose statements, in random order, bind holder parameters to references - scoped (@ev/…, @tr/ev/…) '
+          'or not, evaluated or not, bare or inside a list / dict, one or two levels deep - to classes, a nested class and '
+          'functions, bind integer parameters of those targets under the root and under scopes, and configure 1-2 methods of '
+          'the referenced classes (each re-registers the class). Every configured holder is then called under every scope of '
+          'the file; independent predicate: each object reached through a reference is an instance of the very class, its '
+          'constructor / the function / its methods received exactly the longest-prefix bindings of the file, and the same '
+          'holds after config_str() is re-parsed in a fresh gin. non-trivial = a scoped reference to a class precedes the '
+          'configuration of one of its methods.')
+
+  def budget(self, tier):
+    return 300 if tier == 'quick' else 6000
+
+  def corpus(self):
+    pa, pb, tp = SR_SPELL['pkga.util'][0], SR_SPELL['pkgb.util'][3], SR_SPELL['top'][0]
+    fa = SR_SPELL['pkga.util'][2]
+    return [
+        # a scoped and an unscoped evaluated reference, then the class parameter, then the method
+        {'files': [[DYN, pa,
+                    ['bind', 'ev', 'pkga.util.g', 'r', ['ref', ['ev'], 'pkga.util.C', True]],
+                    ['bind', '', 'pkga.util.g', 'r', ['ref', [], 'pkga.util.C', True]],
+                    ['bind', '', 'pkga.util.C', 'w', 3],
+                    ['bind', '', 'pkga.util.C.meth', 'x', 7]]]},
+        # not evaluated, two-component scope, inside a list, two methods configured one after the other (two
+        # re-registrations), class and method parameters under 'tr', 'tr/ev', the root and (not a prefix) 'ev'
+        {'files': [[DYN, pb, tp,
+                    ['bind', '', 'top.h', 'r', ['list', [['ref', ['tr', 'ev'], 'ub.C', False], ['ref', ['tr', 'ev'], 'ub.f', False],
+                                                          ['ref', [], 'ub.C', False]]]],
+                    ['bind', 'tr', 'ub.C', 'w', 4], ['bind', '', 'ub.C', 'w', 1], ['bind', 'ev', 'ub.C', 'w', 9],
+                    ['bind', '', 'ub.C.meth2', 'x', 5],
+                    ['bind', 'tr/ev', 'ub.f', 'v', 6],
+                    ['bind', 'tr', 'ub.C.meth', 'y', 8], ['bind', 'ev', 'ub.C.meth', 'y', 2], ['bind', 'tr/ev', 'ub.C.meth2', 'y', 3]]]},
+        # the references in one text (two levels deep; a class parameter referring to the nested class), the methods
+        # configured by a second text
+        {'files': [[DYN, fa, tp,
+                    ['bind', '', 'top.g', 'r', ['ref', ['ev'], 'util.g', True]],
+                    ['bind', '', 'util.g', 'r', ['dict', [['k', ['ref', [], 'util.C', True]], ['s', ['ref', ['tr'], 'util.C', True]]]]],
+                    ['bind', '', 'util.C', 'v', ['ref', ['inner'], 'util.C.Inner', True]],
+                    ['bind', 'inner', 'util.C.Inner', 'w', 2]],
+                   [DYN, fa,
+                    ['bind', 'ev', 'util.C.meth', 'y', 4], ['bind', '', 'util.C.meth', 'y', 2], ['bind', 'tr', 'util.C.meth', 'x', 6],
+                    ['bind', 'ev', 'util.C', 'w', 5]]]},
+    ]
+
+  def gen(self, rng, tier):
+    while True:
+      spell = {m: rng.choice(v) for m, v in SR_SPELL.items()}
+      if len({bound(i) for i in spell.values()}) == len(spell):
+        break
+
+    def sp(path):
+      m = sr_module(path)
+      return selector_for(spell[m], path[len(m) + 1:])
+    classes = rng.sample(sorted(SR_METHODS), rng.choice([1, 1, 2]))
+    targets = classes + rng.sample(['pkga.util.C.Inner', 'pkgb.util.f', 'pkga.util.f', 'pkga.util.g'], rng.randint(0, 2))
+    fav = rng.choice(SR_REF_SCOPES[1:])            # the scopes of one case overlap
+    def ref_scope():
+      return list(fav) if rng.random() < 0.5 else list(rng.choice(SR_REF_SCOPES))
+    def bind_scope():
+      r = rng.random()
+      if r < 0.35:
+        return ''
+      if r < 0.7:
+        return '/'.join(fav[:rng.randint(1, len(fav))])
+      return rng.choice(SR_BIND_SCOPES)
+    def ref(holder):
+      cands = [t for t in targets if SR_LEVEL[t] > SR_LEVEL[holder]] or [c for c in sorted(SR_METHODS) if SR_LEVEL[c] > SR_LEVEL[holder]]
+      return ['ref', ref_scope(), sp(rng.choice(cands)), rng.random() < 0.6]
+    refs, ints, meths = [], [], []
+    for _ in range(rng.randint(1, 4)):
+      holder = rng.choice([h for h in SR_LEVEL if SR_LEVEL[h] < 2] + [c for c in classes if c == 'pkga.util.C'])
+      if holder == 'pkga.util.C':
+        v = ['ref', ref_scope(), sp('pkga.util.C.Inner'), rng.random() < 0.6]
+      else:
+        r = rng.random()
+        v = ref(holder) if r < 0.7 else ['list', [ref(holder) for _ in range(rng.randint(1, 3))]] if r < 0.85 else \
+            ['dict', [[k, ref(holder)] for k in rng.sample(['k', 's', 'q'], rng.randint(1, 2))]]
+      refs.append(['bind', bind_scope() if rng.random() < 0.4 else '', sp(holder), rng.choice(['r', 'r', 'r2']), v])
+    for _ in range(rng.randint(0, 4)):
+      ints.append(['bind', bind_scope(), sp(rng.choice(targets)), rng.choice(['w', 'v']), rng.randint(1, 9)])
+    for _ in range(rng.randint(1, 3)):
+      c = rng.choice(classes)
+      meths.append(['bind', bind_scope(), sp(c + '.' + rng.choice(SR_METHODS[c])), rng.choice(['x', 'y']), rng.randint(1, 9)])
+    if rng.random() < 0.6:
+      body = refs + ints
+      rng.shuffle(body)
+      tail = list(meths)
+      for _ in range(rng.randint(0, 2)):           # some of the other statements follow the methods
+        if body and len(body) > 1:
+          tail.insert(rng.randint(0, len(tail)), body.pop(rng.randrange(1, len(body))))
+      body += tail
+    else:
+      body = refs + ints + meths
+      rng.shuffle(body)
+    cuts = [len(body)] if rng.random() < 0.7 or len(body) < 2 else [rng.randint(1, len(body) - 1), len(body)]
+    files, a = [], 0
+    for b in cuts:
+      part = body[a:b]
+      a = b
+      need = []
+      for st in part:
+        for n in [st[2]] + [r[2] for r in sr_refs(st[4])]:
+          imp = [i for i in spell.values() if bound(i) == n.split('.')[0]][0]
+          if imp not in need:
+            need.append(imp)
+      rng.shuffle(need)
+      files.append([DYN] + need + part)
+    return {'files': files}
+
+  def shrink(self, case):
+    files = case['files']
+    for i in range(len(files)):
+      for j in range(len(files[i])):
+        if files[i][j][0] != 'import':
+          yield {'files': [f[:j] + f[j + 1:] if k == i else f for k, f in enumerate(files)]}
+    if len(files) > 1:
+      yield {'files': [files[0] + [s for s in files[1] if s[0] != 'import' or s not in files[0]]] + files[2:]}
+    for i in range(len(files)):
+      for j in range(len(files[i])):
+        st = files[i][j]
+        if st[0] == 'bind' and not isinstance(st[4], int) and st[4][0] in ('list', 'dict') and len(st[4][1]) >= 1:
+          for k in range(len(st[4][1])):
+            x = st[4][1][k]
+            nv = x[1] if st[4][0] == 'dict' else x
+            yield {'files': [[s[:4] + [nv] if (a, b) == (i, j) else s for b, s in enumerate(f)] for a, f in enumerate(files)]}
+
+  def impl(self, case):
+    files = case['files']
+    w = World()
+    fails = []
+    try:
+      # ---- what the statements say, by the harness's own resolver
+      store = {}           # (scope, universe path, param) -> value with references resolved to universe paths
+      order = []           # ('ref', class path, scoped?) / ('meth', class path) in statement order
+      ok = True
+      for stmts in files:
+        table, dyn = {}, False
+        for st in stmts:
+          if st[0] == 'import':
+            if st[1] == '__gin__.dynamic_registration':
+              dyn = not table
+            elif st[1] in UNIVERSE:
+              table[bound(st)] = st[1] if (st[2] or st[3]) else st[1].split('.')[0]
+            continue
+
+          def res(name):
+            first, _, rest = name.partition('.')
+            p = table[first] + ('.' + rest if rest else '') if dyn and first in table else None
+            return p if p in w.objs else None
+
+          def conv(v):
+            if isinstance(v, int):
+              return v
+            if v[0] == 'ref':
+              p = res(v[2])
+              if p is None or p.rpartition('.')[0] in SR_METHODS and not isinstance(w.objs[p], type):
+                raise KeyError(v[2])
+              order.append(('ref', p, bool(v[1])))
+              return ('ref', tuple(v[1]), p, bool(v[3]))
+            if v[0] == 'list':
+              return ('list', tuple(conv(x) for x in v[1]))
+            return ('dict', tuple((k, conv(x)) for k, x in v[1]))
+          try:
+            val = conv(st[4])            # the value is parsed (and its references registered) before the target
+          except KeyError:
+            ok = False
+            break
+          tgt = res(st[2])
+          if tgt is None:
+            ok = False
+            break
+          if tgt.rpartition('.')[0] in SR_METHODS and not isinstance(w.objs[tgt], type):
+            if not isinstance(val, int):
+              ok = False
+              break
+            order.append(('meth', tgt.rpartition('.')[0]))
+          store[(st[1], tgt, st[3])] = val
+        if not ok:
+          break
+      if not ok:            # (a shrink candidate that lost an import, …): not a case of this family
+        return {'obs': T('NotApplicable'), 'fails': [], 'nontrivial': False, 'tags': ['n/a']}
+      nontrivial = any(o[0] == 'meth' and any(p[0] == 'ref' and p[1] == o[1] and p[2] for p in order[:i]) for i, o in enumerate(order))
+      scopes = [[]]
+      for (s, _, _), v in store.items():
+        for sc in [s.split('/') if s else []] + [list(r[1]) for r in self._refs(v)]:
+          for k in range(1, len(sc) + 1):
+            if sc[:k] not in scopes:
+              scopes.append(sc[:k])
+      scopes = scopes[:8]
+
+      def expected(path, active):
+        out, best = {}, {}
+        for (s, o, p), v in store.items():
+          sc = s.split('/') if s else []
+          if o == path and list(active[:len(sc)]) == sc and (p not in best or len(sc) > best[p]):
+            best[p], out[p] = len(sc), v
+        return out
+
+      # ---- the implementation
+      gin = C.fresh_gin()
+      for i, stmts in enumerate(files):
+        try:
+          gin.parse_config(sr_render(stmts))
+        except Exception as e:  # pylint: disable=broad-except
+          fails.append(('valid-statement-rejected', 'text %d raised %s (%s) although every name is provided by its own imports: %r' %
+                        (i, type(e).__name__, str(e)[:160], sr_render(stmts))))
+          return {'obs': T('Err', type(e).__name__), 'fails': fails, 'nontrivial': nontrivial, 'tags': ['err']}
+      ncalls = self._probe(gin, w, store, scopes, expected, fails, 'after parsing')
+      if not fails:
+        try:
+          text = gin.config_str()
+          g2 = C.fresh_gin()
+          g2.parse_config(text)
+        except Exception as e:  # pylint: disable=broad-except
+          fails.append(('config-str-does-not-parse', '%s: %s' % (type(e).__name__, str(e)[:300])))
+        else:
+          self._probe(g2, w, store, scopes, expected, fails, 'after re-parsing config_str() %r in a fresh gin' % text)
+    finally:
+      w.close()
+    return {'obs': T('Done', ncalls), 'fails': fails[:3], 'nontrivial': nontrivial,
+            'tags': ['files%d' % len(files), 'ref-then-meth' if nontrivial else 'other']}
+
+  @staticmethod
+  def _refs(v):
+    if isinstance(v, tuple):
+      if v[0] == 'ref':
+        yield v
+      else:
+        for x in v[1]:
+          for r in ScopedRefEngine._refs(x[1] if v[0] == 'dict' else x):
+            yield r
+
+  def _probe(self, gin, w, store, scopes, expected, fails, when):
+    """calls every configured function / class under every scope and follows the references; returns the number of calls"""
+    count = [0]
+
+    def under(active):
+      return gin.config_scope('/'.join(active) or None)
+
+    def fail(kind, msg):
+      if len(fails) < 6:
+        fails.append((kind, msg + ' [' + when + ']'))
+
+    def check(got, path, active, via):
+      """`got` is what calling `path` under the scope `active` returned"""
+      obj = w.objs[path]
+      want = expected(path, active)
+      if isinstance(obj, type):
+        if not isinstance(got, obj):
+          fail('reference-wrong-object', '%s under scope %r: expected an instance of %s, got %r' % (via, '/'.join(active), path, got))
+          return
+        recv = getattr(got, 'kw', None)
+      else:
+        recv = got
+      if not isinstance(recv, dict) or sorted(recv) != sorted(want):
+        fail('reference-call-wrong-argument', '%s under scope %r: %s received the parameters %r, the statements bind %r' %
+             (via, '/'.join(active), path, sorted(recv) if isinstance(recv, dict) else recv, sorted(want)))
+        return
+      for p, v in want.items():
+        value(recv[p], v, active, '%s -> %s.%s' % (via, path, p))
+      if isinstance(obj, type):
+        for m in SR_METHODS.get(path, []):
+          wm = expected(path + '.' + m, active)
+          try:
+            count[0] += 1
+            with under(active):
+              r = getattr(got, m)()
+          except Exception as e:  # pylint: disable=broad-except
+            fail('reference-call-raised', '%s under scope %r: calling %s.%s on the object raised %s: %s' %
+                 (via, '/'.join(active), path, m, type(e).__name__, str(e)[:160]))
+            continue
+          if r != wm:
+            fail('reference-method-wrong-argument', '%s under scope %r: the method %s.%s of the object received %r, the statements '
+                 'bind %r' % (via, '/'.join(active), path, m, r, wm))
+
+    def value(got, v, active, via):
+      if isinstance(v, int):
+        if got != v or isinstance(got, bool):
+          fail('reference-call-wrong-argument', '%s under scope %r: received %r, bound %r' % (via, '/'.join(active), got, v))
+      elif v[0] == 'ref':
+        _, rsc, path, ev = v
+        spelled = '@' + '/'.join(list(rsc) + [path]) + ('()' if ev else '')
+        if ev:
+          check(got, path, list(rsc) or list(active), via + ' = ' + spelled)
+          return
+        if not callable(got):
+          fail('reference-wrong-object', '%s under scope %r: %s delivered %r' % (via, '/'.join(active), spelled, got))
+          return
+        for outer in ([list(active)] + ([[]] if active else [['ev']])):
+          try:
+            count[0] += 1
+            with under(outer):
+              r = got()
+          except Exception as e:  # pylint: disable=broad-except
+            fail('reference-call-raised', '%s = %s called under scope %r raised %s: %s' %
+                 (via, spelled, '/'.join(outer), type(e).__name__, str(e)[:160]))
+            continue
+          check(r, path, list(rsc) or outer, '%s = %s called under %r' % (via, spelled, '/'.join(outer)))
+      elif v[0] == 'list':
+        if not isinstance(got, (list, tuple)) or len(got) != len(v[1]):
+          fail('reference-call-wrong-argument', '%s: received %r for a list of %d references' % (via, got, len(v[1])))
+          return
+        for i, (g, x) in enumerate(zip(got, v[1])):
+          value(g, x, active, '%s[%d]' % (via, i))
+      else:
+        if not isinstance(got, dict) or sorted(got) != sorted(k for k, _ in v[1]):
+          fail('reference-call-wrong-argument', '%s: received %r for a dict with keys %r' % (via, got, [k for k, _ in v[1]]))
+          return
+        for k, x in v[1]:
+          value(got[k], x, active, '%s[%r]' % (via, k))
+
+    tops = sorted({o for (_, o, _) in store if o in SR_LEVEL})
+    for path in tops:
+      for active in scopes:
+        try:
+          count[0] += 1
+          with under(active):
+            got = gin.get_configurable(w.objs[path])()
+        except Exception as e:  # pylint: disable=broad-except
+          fail('reference-call-raised', 'calling %s under scope %r raised %s: %s' % (path, '/'.join(active), type(e).__name__, str(e)[:200]))
+          continue
+        check(got, path, active, 'get_configurable(%s)()' % path)
+    return count[0]
+
+
+ENGINES = [DynEngine(), ScopedRefEngine()]
